@@ -8,6 +8,7 @@ import Driver.Codec
 import Mqtt5V.Model.Sender
 import Mqtt5V.Model.Replies
 import Mqtt5V.Model.Verdict
+import Mqtt5V.Model.Session
 /-! `mdrv`: the model behind a one-line-in / one-line-out protocol (DESIGN.md Appendix B).
 Imports Model/Spec/Gen only (no Mathlib, so it links as a native executable). -/
 open Mqtt5V
@@ -62,6 +63,12 @@ def u8Step (ws : List String) : String :=
 def pureStep (ws : List String) : String :=
   match ws with
   | "u8" :: rest => u8Step rest
+  | "sess" :: toks =>
+    let ins := toks.filterMap fun t => match t with
+      | "c0" => some (Model.Session.In.connack false) | "c1" => some (.connack true)
+      | "u" => some .update | "s" => some .subOk | _ => none
+    let r := Model.Session.run {} ins
+    String.join (r.2.map fun b => if b then "1" else "0")
   | "verdict" :: cat :: n :: codes =>
     match Category.ofString? cat, n.toNat?, codes.mapM String.toNat? with
     | some c, some n, some cs =>
@@ -70,7 +77,9 @@ def pureStep (ws : List String) : String :=
       | none => "malformed"
     | _, _, _ => "bad-op"
   | "enc" :: _ => Driver.Codec.step ws
+  | "dupenc" :: _ => Driver.Codec.step ws
   | "varlen" :: _ => Driver.Codec.step ws
+  | "val" :: _ => Driver.Codec.step ws
   | ["ord", "lt", p1, s1, p2, s2] =>
     match p1.toNat?, s1.toNat?, p2.toNat?, s2.toNat? with
     | some p1, some s1, some p2, some s2 =>
